@@ -13,6 +13,7 @@
 #include <rime/config/config_cow_ref.h>
 #include <rime/config/config_data.h>
 #include <rime/config/config_types.h>
+#include <rime/verif_hooks.h>
 
 namespace rime {
 
@@ -91,7 +92,19 @@ bool ConfigData::SaveToFile(const path& file_path) {
   }
   LOG(INFO) << "saving config file '" << file_path << "'.";
   // dump tree
+#ifdef RIME_VERIF
+  struct VerifCrashPointAtExit {
+    const char* tag;
+    ~VerifCrashPointAtExit() { RIME_VERIF_CRASHPOINT(tag); }
+  };
+  RIME_VERIF_CRASHPOINT("config.save:before_open");
+  VerifCrashPointAtExit verif_closed{"config.save:closed"};
+#endif
   std::ofstream out(file_path.c_str());
+#ifdef RIME_VERIF
+  RIME_VERIF_CRASHPOINT("config.save:opened");
+  VerifCrashPointAtExit verif_emitted{"config.save:emitted"};
+#endif
   return SaveToStream(out);
 }
 
